@@ -63,6 +63,26 @@ def outside_bracket_scens():
     return late
 
 
+def verdict_under_every_reporter(ctx, bench, scens, label, what):
+    """The run's verdict under the reporters that write files (XML, libxml2, CDash) - whose totals are folded by code of their own - judged
+    by the same oracle as under the text reporter: failure exactly when a check failed or a test ended abnormally."""
+    reps = ["xml", "libxml", "cdash"]
+    models = run_model_scenarios([s.text() for s in scens])
+    obs = bench.run_many([(s.text(), r) for s in scens for r in reps])
+    shown, k = 0, 0
+    for s, m in zip(scens, models):
+        for r in reps:
+            o = obs[k]; k += 1
+            if m.halted is not None:
+                continue
+            e = oracle_C01(s, m, o, r)
+            if e and shown < 4:
+                shown += 1
+                fs = facts_of(s, m)
+                ctx.violation(f"[{label}] {what}, {r} reporter: {e}", f"# reporter: {r}   harness/scenario_run <file> {r} <outdir>\n" + s.text()[:6000], found_input=True, facts=dict(fs, rep=r))
+    ctx.coverage["verdict_runs_under_file_writing_reporters"] = len(obs)
+
+
 def check_C01(ctx):
     runner_lean(ctx)
     import verdict as vd
@@ -86,6 +106,7 @@ def check_C01(ctx):
     reporters = ["text", "quiet", "cute"]
     dis, orf = explore(ctx, bench, scens, reporters, oracle_C01, "C01")
     report(ctx, bench, dis, orf, oracle_C01, "C01")
+    verdict_under_every_reporter(ctx, bench, [sc for sc in scens if sc.mode == "fork"][: sizes(ctx, 60, 600)] + scens[-16:], "C01", "the run's verdict")
     # Failed checks that reach the channel outside a test's own bracket - in a suite's legacy fixture run by the reporting
     # process around a sub-suite, or in an exit handler of the test's process, after its completion notice - are failed
     # checks of the run all the same. The model treats suite fixtures as logging only, so this family is judged by the
@@ -327,6 +348,45 @@ def check_C18(ctx):
                 scens.append(Scen(S("top", items=[S("inner", items=[t.copy() for t in before] + [T("big", body=["P"] * k), T("b", body=["P"])])]), mode=mode, cap=cap))
     dis, orf = explore(ctx, bench, scens, ["text", "cute"], oracle_C18, "C18", check_events=True)
     report(ctx, bench, dis, orf, oracle_C18, "C18")
+    # the verdict of a run in which a test overflows the channel, under the reporters that fold their totals themselves: the
+    # overflowing test in a sub-suite that is not the last one to finish, everything else green
+    vs = []
+    for k in (cap - 1, cap, cap + 1, 3 * cap):
+        big = T("big", body=["P"] * k)
+        vs.append(Scen(S("top", items=[S("first", items=[big.copy()]), S("second", items=[T("b", body=["P"])])]), mode="fork", cap=cap))
+        vs.append(Scen(S("top", items=[S("mid", items=[S("deep", items=[big.copy()]), T("a", body=["P"])]), T("c", body=["P"])]), mode="fork", cap=cap))
+        vs.append(Scen(S("top", items=[T("a", body=["P"]), big.copy()]), mode="fork", cap=cap))
+    verdict_under_every_reporter(ctx, bench, vs, "C18", "a test that makes about as many checks as the channel holds")
+    # the same through cgreen-runner: a library whose test makes N checks, run as one of several tests and as the one selected test
+    # (which cgreen-runner runs in its own process): success only if all N results are reported
+    rimpl = build_impl(ctx, runner=True, tag="runner")
+    ldir = os.path.join(ctx.work, "c18lib"); os.makedirs(ldir)
+    open(os.path.join(ldir, "big.c"), "w").write('#include <cgreen/cgreen.h>\n#include <stdlib.h>\nEnsure(big_makes_many_checks) { int i, n = atoi(getenv("C18_N")); for (i = 0; i < n; i++) assert_that(i, is_equal_to(i)); }\n'
+                                                 'Ensure(small_passes) { assert_that(1, is_equal_to(1)); }\n')
+    r = sh(["gcc", "-shared", "-fPIC", "-w", f"-I{REPO}/include", os.path.join(ldir, "big.c"), "-o", os.path.join(ldir, "libbig_tests.so"), f"-L{rimpl['dir']}", "-lcgreen"])
+    if r.returncode != 0:
+        raise BuildError("test library: " + r.stdout[-1500:])
+    nrun = rshown = 0
+    for n in (cap - 1, cap, cap + 1, 5 * cap):
+        for args, label in (([], "all tests"), (["big_makes_many_checks"], "the one test selected by name"), (["big*"], "the one test selected by a pattern"), (["-q", "big_makes_many_checks"], "the one test selected by name, quiet")):
+            e = dict(os.environ); e["C18_N"] = str(n); e["LD_LIBRARY_PATH"] = rimpl["dir"]; e.pop("CGREEN_NO_FORK", None)
+            try:
+                rr = subprocess.run([rimpl["runner"]] + [a_ for a_ in args if a_.startswith("-")] + ["libbig_tests.so"] + [a_ for a_ in args if not a_.startswith("-")], cwd=ldir, stdout=subprocess.PIPE, stderr=subprocess.PIPE, env=e, timeout=120)
+                rc, outp = rr.returncode, rr.stdout.decode("latin-1")
+            except subprocess.TimeoutExpired:
+                rc, outp = "timeout", ""
+            nrun += 1
+            want_passes = n + (0 if args and not args[-1].startswith("-") else 1)
+            mt = re.findall(r"(\d+) pass", re.sub(r"\x1b\[[0-9;]*m", "", outp))
+            reported = max([int(x) for x in mt], default=0)
+            if rc == "timeout" or (rc == 0 and "-q" not in args and reported != want_passes) or (rc == 0 and n + 1 > cap):
+                if rshown < 4:
+                    rshown += 1
+                    ctx.violation(f"[C18] cgreen-runner, {label}, a test that makes {n} checks (the channel holds {cap} records): " +
+                                  ("the run does not terminate" if rc == "timeout" else f"exit status 0 with {reported} passes reported of {want_passes} checks made"),
+                                  f"# a library with  Ensure(big_makes_many_checks) {{ for (i = 0; i < {n}; i++) assert_that(i, is_equal_to(i)); }}  and one small passing test\ncgreen-runner {' '.join(args[:1] if args and args[0].startswith('-') else [])} libbig_tests.so {' '.join(a_ for a_ in args if not a_.startswith('-'))}",
+                                  found_input=True, facts={"runner_overflow": True, "n": n})
+    ctx.coverage["runner_overflow_runs"] = nrun
     ctx.coverage["samples"] = [f"k={len(t.body)} checks in test 'big', mode {s.mode}" for s in scens[:6] for _, t in s.root.tests() if t.name == "big"]
     ctx.coverage["evaluations"] = ctx.coverage["correspondence"]["cases"]
     ctx.coverage["distinct_nontrivial"] = len({s.text() for s in scens})
@@ -639,6 +699,10 @@ def gen_fw_test(rng, name, allow_read_global):
     acts = [rng.choice(FW_ACTS + (["R"] if allow_read_global else [])) for _ in range(n)]
     if rng.random() < 0.15:
         acts += ["MF"] * rng.choice([4, 5, 7, 9])     # many expectations left pending
+    if rng.random() < 0.3:
+        # a test of a context: what its setup selects (mock mode, figures, expectations) is in force in the body and the teardown
+        return T(name, ctx=1, body=acts, setup=[rng.choice(["ML", "MG", "G2", "G12", "MF", "EC", "W", "P", "MS"]) for _ in range(rng.choice([1, 1, 2]))],
+                 teardown=[rng.choice(["CU", "D", "P", "MF"]) for _ in range(rng.choice([0, 1, 2]))])
     return T(name, body=acts)
 
 
@@ -714,6 +778,9 @@ def check_C04(ctx):
             dies = any(a in ("K11", "E") for a in t.body)
             # a test that dies never reaches the tally: what it left pending is not reported
             t.body = [a for a in t.body if a not in ("K11", "E", "S") and not (dies and a == "MF")]
+            if dies:      # (the dying act is the last one of the body: the teardown never runs)
+                t.teardown = []
+                t.setup = [a for a in t.setup if a != "MF"]
         return c.text()
     models = run_pertest_model([model_text(s) for s in scens])
     ndis = 0
@@ -1036,6 +1103,9 @@ static intptr_t f0(void) { return mock(); }
 static intptr_t f1(intptr_t a_b) { return mock(a_b); }
 static intptr_t f1_b(intptr_t a_b, intptr_t a) { return mock(a_b, a); }
 static intptr_t f1_bc(intptr_t a_b, intptr_t a, intptr_t a_b_c) { return mock(a_b, a, a_b_c); }
+/* the same functions under other names, as a header that renames an interface does it (fopen -> fopen64) */
+#define f1_renamed f1
+#define f1_b_renamed f1_b
 static void emit(void) { printf("out %s | q ", outbuf); cgreen_verif_dump_expectations(stdout); printf("\n"); outlen = 0; outbuf[0] = 0; }
 static void ret(intptr_t r) { outlen += snprintf(outbuf + outlen, sizeof outbuf - outlen, "%sr%lld", outlen ? " " : "", (long long)r); }
 """
@@ -1076,7 +1146,8 @@ def macro_layer(ctx, impl, rng, label):
                         pp, cmp_, v = tok[1:].split(":")
                         clauses.append(f"when({PN[int(pp)]}, {CONS[cmp_]}({int(v)}LL))")
                 macro = {"expect": "expect", "always": "always_expect", "never": "never_expect"}[t[0]]
-                out.append(f'#line {nid} "ops"\n    {macro}({", ".join([FN[f]] + clauses)}); emit();')
+                fname = FN[f] + "_renamed" if f in (1, 2) and rng.random() < 0.4 else FN[f]      # declared through a renaming macro: the name is the function's
+                out.append(f'#line {nid} "ops"\n    {macro}({", ".join([fname] + clauses)}); emit();')
                 nid += 1
         out.append("}")
     out.append("extern CgreenTest *current_test;\nstatic CgreenTest dummy_test = { 0, &defaultContext, \"unexpected\", NULL, \"unexpected-call\", 0 };")
@@ -1180,6 +1251,32 @@ def check_C07(ctx):
                           "# feed to harness/mock_ops\n" + "\n".join(ops), found_input=True,
                           facts={"times0": any(" t0" in o for o in ops), "ltgt": any(":lt:" in o or ":gt:" in o for o in ops)})
     ctx.coverage["systematic_family"] = len(fam)
+    # the mock mode a test selects - in its body, in its context's setup or in a suite's setup fixture - is the one its calls meet:
+    # with loose or learning mocks a call without an expectation yields nothing, with strict mocks one failure
+    rbench = Bench(ctx)
+    mjobs, mmeta = [], []
+    for mode_act, nfail in (("ML", 0), ("MG", 0), ("MS", 1), (None, 1)):
+        for where in ("body", "context setup", "suite setup"):
+            for run_mode in ("fork", "inproc", "single:t"):
+                sel = [mode_act] if mode_act else []
+                if where == "body": root = S("top", items=[T("pre", body=["P"]), T("t", body=sel + ["CU", "P"])])
+                elif where == "context setup": root = S("top", items=[T("pre", body=["P"]), T("t", ctx=1, setup=sel, body=["CU", "P"])])
+                else:
+                    inner = S("inner", su=1, td=1, items=[T("t", body=["CU", "P"])]); inner.fixture = (sel, [])
+                    root = S("top", items=[T("pre", body=["P"]), inner])
+                sc = Scen(root, mode=run_mode)
+                mjobs.append((sc.text(), "text")); mmeta.append((mode_act, nfail, where, run_mode, sc))
+    mobs = rbench.run_many(mjobs)
+    mshown = 0
+    for (mode_act, nfail, where, run_mode, sc), o in zip(mmeta, mobs):
+        got = fw_observed(o, sc).get("t", (None, None))[0]
+        if got != nfail and mshown < 4:
+            mshown += 1
+            name = {"ML": "loose mocks", "MG": "learning mocks", "MS": "strict mocks", None: "the default (strict) mocks"}[mode_act]
+            ctx.violation(f"[C07] {name} selected in the test's {where} ({run_mode}): a call without an expectation yields {got} failures, expected {nfail}",
+                          "# reporter: text   harness/scenario_run <file> text <outdir>   (ML/MG/MS: cgreen_mocks_are(loose/learning/strict); CU: a call that has no expectation)\n" + sc.text(),
+                          found_input=True, facts={"mock_mode_where": where})
+    ctx.coverage["mock_mode_selection_runs"] = len(mjobs)
     blocks = [gen_history(rng, rng.choice([3, 6, 10, 20])) for _ in range(sizes(ctx, 1500, 40000))]
     r = mocks_explore(ctx, exe, blocks, "C07", env=asan_env())
     macro_layer(ctx, impl, rng, "C07")
@@ -1192,7 +1289,7 @@ def check_C07(ctx):
 
 # ---- C05: constraints ---------------------------------------------------------------------------
 INT_NAMES = ["isEqualTo", "isNotEqualTo", "isGreaterThan", "isLessThan", "isNull", "isNonNull", "isTrue", "isFalse",
-             "assertEqual", "assertNotEqual", "assertTrue", "assertFalse", "assertEqualMsg", "assertNotEqualMsg", "isEqualToHex"]
+             "assertEqual", "assertNotEqual", "assertTrue", "assertFalse", "assertEqualMsg", "assertNotEqualMsg", "isEqualToHex", "assertTrueMsg", "assertFalseMsg"]
 STR_NAMES = ["isEqualToString", "isNotEqualToString", "containsString", "doesNotContainString", "beginsWithString",
              "doesNotBeginWithString", "endsWithString", "doesNotEndWithString", "assertStringEqual", "assertStringNotEqual",
              "assertStringEqualMsg", "assertStringNotEqualMsg"]
@@ -1200,7 +1297,7 @@ STR_NAMES = ["isEqualToString", "isNotEqualToString", "containsString", "doesNot
 
 def int_oracle(name, a, e):
     return {"isEqualTo": a == e, "isNotEqualTo": a != e, "isGreaterThan": a > e, "isLessThan": a < e, "isNull": a == 0, "isNonNull": a != 0,
-            "isTrue": a != 0, "isFalse": a == 0, "assertEqual": a == e, "assertNotEqual": a != e, "assertTrue": a != 0, "assertFalse": a == 0,
+            "isTrue": a != 0, "isFalse": a == 0, "assertEqual": a == e, "assertNotEqual": a != e, "assertTrue": a != 0, "assertFalse": a == 0, "assertTrueMsg": a != 0, "assertFalseMsg": a == 0,
             "assertEqualMsg": a == e, "assertNotEqualMsg": a != e, "isEqualToHex": a == e}[name]
 
 
